@@ -28,6 +28,8 @@ CHECKS = {
          "TLC model check of Dhcp6Wire layout tables + trace validation of real ToBytes/FromBytes calls"),
  "C05": ("6", "every recorded dhcpv6.FromBytes / ParseOption call (exhaustive small TLV areas, per-option payload-length sweeps, valid payloads cut/extended, truncations, length perturbations, random) must agree with Dec6 of spec/Dhcp6Wire.tla under a three-way verdict (accept with exactly this value / reject / RFC-undefined)",
          "TLC exhaustive small-scope TLV scanner + trace validation of real FromBytes/ParseOption calls against Dec6"),
+ "C17": ("6", "Dhcp4Opts.tla: RFC interpretation of every typed DHCPv4 option value (model-checked over every raw value of a small alphabet: total, ok exactly at the right lengths, never a partial value, set/get); every recorded accessor result for raw values of every length 0..64 (absent, zero, ones, type-structured random), long split values, and set->get through every typed constructor is validated by TLC",
+         "TLC model check of Dhcp4Opts.tla + trace validation of real accessor calls"),
 }
 
 def main():
